@@ -17,6 +17,7 @@ SHAPES = {
     "single": (1, []),
     "chain3": (3, [(0, 1), (1, 2)]),
     "chain4": (4, [(0, 1), (1, 2), (2, 3)]),
+    "join3": (4, [(0, 1), (0, 2), (0, 3)]),
     "fork": (3, [(1, 0), (2, 0)]),
     "join": (3, [(0, 1), (0, 2)]),
     "diamond": (4, [(0, 1), (0, 2), (1, 3), (2, 3)]),
@@ -178,6 +179,16 @@ def c04_scenarios(tier):
             modes[(t_, "build")] = None
             sn = sched.Scenario("%s/build+test/all/undefined-build:%s" % (sh, t_), ts, modes, ["-c", "build", "test"], ["build", "test"])
             out.append(("c04", sn.describe(), {"max_dev": 1 if tier == "quick" else 2, "sequences": None}))
+    # a group of three in which one member fails, one has closed its output streams (monorail has to wait for
+    # it) and one keeps running with open streams (monorail abandons it): nothing of the next group or the
+    # next command may start while the abandoned one is still running
+    ts = shape_targets("join3")
+    paths = [t["path"] for t in ts]
+    for bad, quiet in ((paths[1], paths[2]), (paths[2], paths[3]), (paths[3], paths[1])):
+        sn = sched.Scenario("join3/build+test/all/fail:%s/closed:%s" % (bad, quiet), ts, all_x(ts, ["build", "test"]), ["-c", "build", "test"], ["build", "test"],
+                            faults={("build", bad): 1})
+        sn.close_streams = [quiet]
+        out.append(("c04", sn.describe(), {"max_dev": 2, "sequences": None}))
     # executables that close both output streams right after starting and keep running (exec >log 2>&1)
     for sh in shapes:
         ts = shape_targets(sh)
@@ -224,6 +235,10 @@ def c16_scenarios(tier):
     # invoked as -f <abs config> from an unrelated directory
     for n in ([2, 5, 24] if tier == "quick" else [2, 3, 5, 13, 24, 48]):
         out.append(("c16", {"n": n, "pos": "middle", "ncmd": 1, "foreign": True}, {}))
+    # one member's command file becomes executable only while the run is under way (the target before the group does it)
+    for n in ([2, 5, 24] if tier == "quick" else [2, 3, 5, 13, 24, 48]):
+        for k in sorted({0, n - 1}):
+            out.append(("c16", {"n": n, "pos": "middle", "ncmd": 1, "late_x": k}, {}))
     # the first members finish at once (successfully) while the group is still being started
     for n in ([8, 24, 48] if tier == "quick" else [4, 8, 13, 24, 48, 65]):
         for k in (1, 3):
@@ -324,6 +339,11 @@ def c16_task(desc):
             for c in cmds:
                 r.command_file("", c, "x", cmd_dir="tools", name="%s.sh" % c)
             r.commit("shared tools")
+        late_x = None
+        if desc.get("late_x") is not None:
+            # this member's command file is a real file without execute permission when the run starts;
+            # the target that runs before the group grants the bit
+            late_x = r.command_file(group[desc["late_x"]], cmds[0], "x644")
         if desc.get("argmap") is not None:
             # one member of the group gets runtime arguments from its base argmap file
             r.write(os.path.join(group[desc["argmap"]], "monorail/argmap/base.json"), json.dumps({c_: ["--from-argmap", "x y"] for c_ in cmds}))
@@ -382,7 +402,7 @@ def c16_task(desc):
                     if len(g) == n or (pos == "chain" and len(g) > 1):
                         rendezvous += 1
                     for ch in list(c.waiting()):
-                        c.release(ch, 0)
+                        c.release(ch, 0, ["chmod 755 " + late_x.encode().hex()] if (late_x and sched.pair_of(r, ch)[1] == "pre") else None)
                         released += 1
                     c.wait(lambda: not [ch for ch in c.children if ch.state == "released"] or p.done(), 10)
                 if viol or blocked:
@@ -434,6 +454,12 @@ def c06_scenarios(tier):
                     out.append(("c06", {"shape": sh, "faults": [[c, t1, "exit", 1], [c, t2, kind, code]]}, {}))
         # no fault at all: failed=false, exit 0
         out.append(("c06", {"shape": sh, "faults": []}, {}))
+        # a failure among children that have closed (redirected) their output streams and keep running
+        for (c_, t_) in (positions[0], positions[len(positions) // 2]):
+            out.append(("c06", {"shape": sh, "faults": [[c_, t_, "exit", 1]], "close_streams": True}, {"max_dev": 1 if tier == "quick" else 2}))
+        # children whose output is not valid UTF-8 (Latin-1 text, raw binary): no failure of any kind
+        out.append(("c06", {"shape": sh, "faults": [], "binary_output": True}, {"max_dev": 0}))
+        out.append(("c06", {"shape": sh, "faults": [[positions[-1][0], positions[-1][1], "exit", 3]], "binary_output": True}, {"max_dev": 0}))
         if sh == "fork":
             # every exit code 1..255 at one position (quick: first command; thorough: also the last position)
             for code in range(1, 256):
@@ -448,6 +474,13 @@ def c06_scenarios(tier):
 
 
 def c06_build(desc):
+    sn = _c06_build(desc)
+    sn.binary_output = bool(desc.get("binary_output"))
+    sn.close_streams = desc.get("close_streams") or False
+    return sn
+
+
+def _c06_build(desc):
     ts = shape_targets(desc["shape"])
     cmds = ["build", "test"]
     modes = all_x(ts, cmds)
@@ -869,6 +902,13 @@ def c05_scenarios(tier):
                             out.append(("c05", {"shape": sh, "modes": [[t, c, m] for (t, c), m in sorted(modes.items())], "args": a, "commands": cmds,
                                                 "sequences": seqs, "checkpoint": cp, "changed": changed, "explicit": explicit, "deps": deps,
                                                 "defs": defs}, {}))
+        # further flags that must not change what is selected: --no-base-argmaps (alone, and with -m naming a file nobody has)
+        modes = all_x(ts, ["build", "test"])
+        for extra in (["--no-base-argmaps"], ["--no-base-argmaps", "-m", "nobody-has-this"], ["-m", "nobody-has-this"]):
+            for (explicit, deps) in ((paths[-1:], False), (paths, False), (paths[-1:], True), (None, False)):
+                a = ["-c", "build"] + (["-t"] + explicit + (["--deps"] if deps else []) if explicit else []) + extra
+                out.append(("c05", {"shape": sh, "modes": [[t, c, m] for (t, c), m in sorted(modes.items())], "args": a, "commands": ["build"],
+                                    "sequences": None, "checkpoint": None, "changed": None, "explicit": explicit, "deps": deps}, {}))
         # an executable that dies by a signal (first target's first command / last target's last command)
         modes = all_x(ts, ["build", "test"])
         for (kt, kc) in ((paths[0], "build"), (paths[-1], "test")):
